@@ -26,7 +26,8 @@ Requirements for each of the two changes:
 - It must genuinely violate the property as stated (be careful to read the statement; if the statement tolerates something, that is not a violation).
 - The two changes should be in different mechanisms/locations if possible.
 """ + ("""- This is a SECOND round: avoid the most obvious single-line slips in the first function the property names; prefer less central mechanisms listed under "anchors" (secondary entry points, dispatchers, rarely taken branches, state carried between calls, boundary values of ranges, interactions between two functions) and subtler triggers.
-""" if rnd else "") + f"""
+""" if rnd else "") + ("""- This is a THIRD round: both changes must need either a multi-step sequence of calls / messages (state carried from one call to the next), or two cooperating edits in different functions that each look harmless alone, or an input that lies on a boundary between two rules (e.g. exactly at a threshold, exactly one reserved bit, the last legal value of a range). Do not use `git stash`.
+""" if rnd == "r3" else "") + f"""
 Deliverables, written under {out}/a/ and {out}/b/ (create the directories):
 - patch.diff : `git diff` of the change relative to the worktree's HEAD (apply-able with `git apply` from the repository root).
 - demo.py : a small standalone program, run as `PYTHONPATH=<root>/src /venv/bin/python demo.py`, that exits 0 and prints OK on the UNCHANGED code and exits 1 (printing what went wrong) with the change applied. It should check the property on the specific input(s)/sequence that expose the change, against an expectation you derive independently of the library (e.g. from the standard's definition), not against the library's own previous output where avoidable.
